@@ -50,11 +50,13 @@ func (c caseA) String() string {
 }
 
 // infosFor is validator i's chain-info list as recorded in the snapshot entry.
-// Without an account on the target chain the MEV trait (if any) sits on the
-// other chain's entry, where it must not count.
+// The other chain's entry comes first and carries the opposite MEV trait (so a
+// trait or an address taken from the wrong chain's entry shows); without an
+// account on the target chain the MEV trait (if any) sits on the other chain's
+// entry, where it must not count.
 func (e *env) infosFor(i int, o opt) []*vtypes.ExternalChainInfo {
 	if o.Acct {
-		return []*vtypes.ExternalChainInfo{chainInfo(target, e.snapA[i], o.Mev), chainInfo(other, e.otherA[i], false)}
+		return []*vtypes.ExternalChainInfo{chainInfo(other, e.otherA[i], !o.Mev), chainInfo(target, e.snapA[i], o.Mev)}
 	}
 	return []*vtypes.ExternalChainInfo{chainInfo(other, e.otherA[i], o.Mev)}
 }
@@ -94,7 +96,7 @@ func (e *env) applyTable(ctx sdk.Context, opts [3]int, drift bool) {
 		// current registration
 		if drift {
 			must(w.App.ValsetKeeper.AddExternalChainInfo(ctx, v.ValAddr, []*vtypes.ExternalChainInfo{
-				chainInfo(target, e.driftA[i], !o.Mev), chainInfo(other, e.otherA[i], false)}))
+				chainInfo(other, e.otherA[i], o.Mev), chainInfo(target, e.driftA[i], !o.Mev)}))
 		} else if o.InSnap {
 			must(w.App.ValsetKeeper.AddExternalChainInfo(ctx, v.ValAddr, infos))
 		}
@@ -201,8 +203,11 @@ func (e *env) evalA(tctx sdk.Context, d0 string, txs aTxs, c caseA) {
 	}
 	if em.AssigneeRemoteAddress != e.snapA[ai] {
 		src := "neither snapshot nor current registration"
-		if em.AssigneeRemoteAddress == e.driftA[ai] {
+		switch em.AssigneeRemoteAddress {
+		case e.driftA[ai]:
 			src = "the validator's CURRENT registration"
+		case e.otherA[ai]:
+			src = "the validator's entry for ANOTHER chain"
 		}
 		r.Violate("assign:remote-address-not-from-snapshot", fmt.Sprintf("%s: assignee v%d remote address %s comes from %s; the current snapshot records %s", c, ai, em.AssigneeRemoteAddress, src, e.snapA[ai]), rec)
 	}
@@ -262,7 +267,14 @@ func (e *env) runTables(shard, nshards int, drift bool, maxFar int, times int, t
 				d0 := w.StoreDigest(tctx, "consensus")
 				e.count("a_tables")
 				for _, mev := range []bool{false, true} {
-					for t := 0; t < times; t++ {
+					nt := times
+					if set, _ := eligible(opts, mev); set == 0 && !e.r.Thorough() {
+						// quick tier: a request that must fail is made at one block time only
+						// (the pick index cannot matter when nothing may be picked); thorough
+						// makes it at every block time
+						nt = 1
+					}
+					for t := 0; t < nt; t++ {
 						e.evalA(tctx, d0, txs, caseA{Opts: opts, MEV: mev, T: t, Drift: drift})
 					}
 				}
@@ -274,12 +286,12 @@ func (e *env) runTables(shard, nshards int, drift bool, maxFar int, times int, t
 func (e *env) partA(shard, nshards int) {
 	txs := e.buildATxs()
 	if e.r.Thorough() {
-		e.r.Extra["a_product"] = "drifted and same registration: full 48^3 tables x MEV{no,yes} x 6 consecutive block times"
+		e.r.Extra["a_product"] = "full 48^3 tables x MEV{no,yes} x consecutive block times (6 with drifted registration, 3 with same registration)"
 		e.runTables(shard, nshards, true, 3, 6, txs)
-		e.runTables(shard, nshards, false, 3, 6, txs)
+		e.runTables(shard, nshards, false, 3, 3, txs)
 		return
 	}
-	e.r.Extra["a_product"] = "quick sub-product: drifted registration: the 34,992 tables in which at most one validator fails two or more of {in snapshot, account, fee, metrics} (every row for every validator) x MEV{no,yes} x 3 consecutive block times; same registration: the 5,832 tables in which no validator does x MEV{no,yes} x 1 block time; thorough enumerates the full 48^3 product in both modes"
+	e.r.Extra["a_product"] = "quick sub-product: drifted registration: the 34,992 tables in which at most one validator fails two or more of {in snapshot, account, fee, metrics} (every row for every validator) x MEV{no,yes} x 3 consecutive block times (1 when the reference eligible set is empty); same registration: the 5,832 tables in which no validator does x MEV{no,yes} x 1 block time; thorough enumerates the full 48^3 product in both modes"
 	e.runTables(shard, nshards, true, 1, 3, txs)
 	e.runTables(shard, nshards, false, 0, 1, txs)
 }
